@@ -5,6 +5,7 @@ the tables are read (the concrete part is what the Go side replays).
       → r=fail|t<idx>|c<idx> last=<idx|-> okset=<bits>      okset[i] = an index the property accepts
   ov <level> … | <n> <vkpos> <nv> <aff rows> <diff rows>
       → r=ok final=<pos> greater=<pos.pos> rounds=<k> laws=<0|1> okset=<bits>
+  rl 0 <hex json> | -                                                         (real FixVulns, npm/relax, under a watchdog) → r=ok
   up 0 <hex json> | <requirement blocks>                                     (Update on a whole pom; see handleUp)
   mo 0 <hex json> | <levels> <counts> <pins0> <lres> <nv> <aff> <diffs>     (several packages; see handleMo)
   sg <level> … | <simple> <cur rank|-> <curId|-> <id:rank:diff:mat,…>
@@ -73,7 +74,7 @@ def handleOv (level : Nat) (tb : List String) : String :=
       let greater := Override.versionsGreater rank u.vs vk
       -- the specification's verdict per version: the base itself, or an acceptable move from it
       let spec := (List.range n).map fun i => i = vk || acceptable level rank d vk i
-      let cls := if final != vk && !acceptable level rank d vk final && rank final == rank vk then "C11/override-equal-version" else "-"
+      let cls := "-"
       s!"r=ok final={final} greater={joinWith "." (greater.map toString)} rounds={roundsOf u level (n + 1) vk} laws={boolStr (lawsHold n d)} spec={showBits spec} cls={cls}"
     | _, _, _, _, _ => "bad-op"
   | _ => "bad-op"
@@ -192,7 +193,9 @@ def handle (line : String) : String :=
       | some level =>
         let tb := tables.splitOn " "
         if op = "rx" then handleRx level tb else if op = "ov" then handleOv level tb
-        else if op = "sg" then handleSg level tb else if op = "mo" then handleMo tb else if op = "up" then handleUp tb else "bad-op"
+        else if op = "sg" then handleSg level tb else if op = "mo" then handleMo tb else if op = "up" then handleUp tb
+        else if op = "rl" then "r=ok"     -- relax end to end: the only claim is termination (the call returns); see C11_terminates_*
+        else "bad-op"
       | none => "bad-op"
     | _ => "bad-op"
   | _ => "bad-op"
